@@ -76,6 +76,15 @@ struct Extractor {
   llvm::raw_string_ostream FO{funcs}, RO{records};
   unsigned nfun = 0, nrec = 0;
   std::unordered_map<const Decl *, unsigned> fkey;
+  std::unordered_map<const Decl *, unsigned> ckey;   // closure classes: type strings of lambdas are not unique per instantiation
+  unsigned classKey(const CXXRecordDecl *R) {
+    const Decl *K = R->getCanonicalDecl();
+    auto it = ckey.find(K);
+    if (it != ckey.end()) return it->second;
+    unsigned n = ckey.size() + 1;
+    ckey.emplace(K, n);
+    return n;
+  }
   std::set<const Decl *> seenRec;
   std::set<const FunctionDecl *> seenFun;
 
@@ -193,6 +202,7 @@ struct Extractor {
           O << ",\"a\":"; targList(O, Sp->getTemplateArgs().asArray());
         }
         O << ",\"t\":" << ty(C.getRecordType(R));
+        if (R->isLambda()) O << ",\"lck\":" << classKey(R);
         O << '}';
       } else if (auto *F = dyn_cast<FunctionDecl>(*it)) {
         O << "{\"f\":"; jstr(O, F->getNameAsString()); O << ",\"k\":" << keyOf(F) << '}';
@@ -440,7 +450,7 @@ struct Extractor {
       }
       O << ']';
     } else if (auto *E = dyn_cast<LambdaExpr>(St)) {
-      O << ",\"k\":\"lambda\",\"fk\":" << keyOf(E->getCallOperator()) << ",\"caps\":[";
+      O << ",\"k\":\"lambda\",\"fk\":" << keyOf(E->getCallOperator()) << ",\"lt\":" << ty(C.getRecordType(E->getLambdaClass())) << ",\"lck\":" << classKey(E->getLambdaClass()) << ",\"caps\":[";
       bool first = true;
       auto ci = E->capture_init_begin();
       for (auto &cap : E->captures()) {
